@@ -154,6 +154,17 @@ CLAIMED["C16"] = dict(
     ref="DESIGN.md section 2 (C02/C03/C16)",
     technique="TLC trace validation of label tables (addresses, per-expansion names) and of breakpoint resolution against a TLA+ definition")
 
+CLAIMED["C13"] = dict(
+    text="FJAsmProc.tla models what outlives an assemble() call in one process (stl-prefix parse cache keyed by files/width/warning mode, the "
+         "interpreter's recursion limit) with the design properties KeyDeterminesSnapshot, CacheEntriesImmutable, ResultIsPure checked by TLC, which "
+         "also enumerates EVERY history of bounded length over 20 call kinds (programs incl. failing ones x width x warning mode x recursion depth x "
+         "stl / explicit stl paths / no stl). Each history runs in one fresh interpreter (directory changing between calls) logging after every call "
+         "the digest of the .fjm+.fjd bytes or the failure class, every cache key with a deep structural digest of what a cache hit restores, and the "
+         "recursion limit; Pure is measured in fresh processes (other directory, PYTHONHASHSEED 0/1/random). TLC judges every log (Trace_FJAsmProc).",
+    note="Trusted: the digest function; the call alphabet. Bounded: all pairs + sampled triples (quick), all triples (thorough) over 20 call kinds.",
+    ref="DESIGN.md section 2 (C13)",
+    technique="TLA+ process-state model + TLC enumeration of all bounded call histories + TLC trace validation of recorded histories against fresh-process results")
+
 NOT_YET = {}
 
 
